@@ -16,6 +16,7 @@ import (
 
 // Obligation is one proof goal: background ∧ ¬Goal must be unsat.
 type Obligation struct {
+	Blk *ssa.BasicBlock `json:"-"` // block whose encoding produced the obligation
 	Name  string // <func>#<class>:<desc>[#n]
 	Func  string
 	Class string
@@ -125,6 +126,15 @@ type Enc struct {
 	axiomsUsed  []string
 	specUsed    map[string]bool
 	foldDone    map[string]bool
+	opaqueUsed  map[string]bool
+	noFacts     bool // proving the facts themselves
+	inFact      bool // evaluating the statement of a fact: opaque functions stay opaque
+	factCache   map[string]string
+	defineOpaque bool // evaluating the definitions themselves (fact proofs): opaque functions are expanded
+	scratch     []scratchObj
+	assertBlk   []*ssa.BasicBlock // block whose encoding produced the assertion (nil: function entry / global)
+	assertDef   []string          // non-empty: the assertion defines this name
+	foldInsts   map[string][]*foldInst
 	named       map[string]string
 	readTrace   map[string]bool
 	specDecls   []string
@@ -182,6 +192,45 @@ func (e *Enc) assert(t string) {
 		return
 	}
 	e.asserts = append(e.asserts, t)
+	e.assertBlk = append(e.assertBlk, e.curBlock)
+	e.assertDef = append(e.assertDef, "")
+}
+
+// scratchObj: allocation root of a local buffer that never escapes (see scratchBuffer), valid where `reach` holds.
+type scratchObj struct{ root, reach string }
+
+// rollback drops the assertions made since there were na of them (a lenient clause that did not resolve).
+func (e *Enc) rollback(na int) {
+	if na >= len(e.asserts) {
+		return
+	}
+	for i := na; i < len(e.asserts); i++ {
+		if d := e.assertDef[i]; d != "" {
+			for t, c := range e.named {
+				if c == d {
+					delete(e.named, t)
+				}
+			}
+		}
+	}
+	e.asserts = e.asserts[:na]
+	e.assertBlk = e.assertBlk[:na]
+	e.assertDef = e.assertDef[:na]
+}
+
+// assertDefnFact: an unconditional fact that is true by definition (block-independent).
+func (e *Enc) assertDefnFact(t string) {
+	e.asserts = append(e.asserts, t)
+	e.assertBlk = append(e.assertBlk, nil)
+	e.assertDef = append(e.assertDef, "")
+}
+
+// assertDefn: the definition of a fresh name (a constant standing for a long term). Obligations only carry the
+// definitions of the names they mention.
+func (e *Enc) assertDefn(name, t string) {
+	e.asserts = append(e.asserts, app("=", name, t))
+	e.assertBlk = append(e.assertBlk, nil)
+	e.assertDef = append(e.assertDef, name)
 }
 
 func (e *Enc) unsupp(format string, a ...interface{}) {
@@ -881,7 +930,7 @@ func (e *Enc) oblige(class, desc, tag string, pos token.Pos, goal string) {
 		pp := e.w.Fset.Position(pos)
 		p = fmt.Sprintf("%s:%d", strings.TrimPrefix(pp.Filename, e.w.RepoDir+"/"), pp.Line)
 	}
-	o := &Obligation{Name: name, Func: e.name, Class: class, Tag: tag, Desc: desc, Pos: p, Goal: goal, Guard: e.pendingGuard, N: len(e.asserts)}
+	o := &Obligation{Name: name, Func: e.name, Class: class, Tag: tag, Desc: desc, Pos: p, Goal: goal, Guard: e.pendingGuard, N: len(e.asserts), Blk: e.curBlock}
 	e.pendingGuard = ""
 	// replay heuristic: inside a loop whose head phi starts from a parameter (b = b[k:] style parsers), the state of the
 	// arbitrary iteration is itself a legal initial argument: read the parameter from the phi
@@ -1080,9 +1129,13 @@ func (e *Enc) selDepth(ht, addr string, depth int) string {
 	// that could hit addr; we therefore rewrite only when ht itself is the framed constant or a named alias of it
 	b := ht
 	if fi, ok := e.frameOf[b]; ok {
-		cond := app("<=", e.addrRoot(fi.key, addr), fi.apre)
+		rt := e.addrRoot(fi.key, addr)
+		cond := app("<=", rt, fi.apre)
 		for _, x := range fi.except {
-			cond = and(cond, app("distinct", e.addrRoot(fi.key, addr), x))
+			if x == rt {
+				return app("select", b, addr) // the address is rooted at an excepted allocation: not framed
+			}
+			cond = and(cond, app("distinct", rt, x))
 		}
 		return app("ite", cond, e.selDepth(fi.prev, addr, depth+1), app("select", b, addr))
 	}
@@ -1188,6 +1241,14 @@ func (e *Enc) loadedRefFacts(h *Heap, key, srt, addr string) {
 	if srt != "Ref" && srt != "Slice" {
 		return
 	}
+	rdv := e.sel(e.heapGet(h, key, srt), addr)
+	if srt == "Slice" {
+		rdv = app("sarr", rdv)
+	}
+	for _, sc := range e.scratch {
+		// no reference to a scratch buffer of this function is ever stored
+		e.assert(implies(sc.reach, app("distinct", app("rootid", rdv), sc.root)))
+	}
 	ht := e.heapGet(h, key, srt)
 	bases := map[string]bool{}
 	e.readBases(ht, 0, bases)
@@ -1207,7 +1268,7 @@ func (e *Enc) loadedRefFacts(h *Heap, key, srt, addr string) {
 // closedness: in precise (quantified) mode, every reference stored in a freshly introduced heap constant was allocated
 // no later than the constant's watermark. Needed under quantifiers, where per-load facts cannot be emitted.
 func (e *Enc) closedness(n, key, sort string) {
-	if !e.precise || strings.HasPrefix(key, "$") || e.ct == nil || e.ct.Opts["closed-heaps"] == "" {
+	if (!e.precise && !e.token) || strings.HasPrefix(key, "$") || e.ct == nil || e.ct.Opts["closed-heaps"] == "" {
 		return
 	}
 	w, ok := e.wm[n]
